@@ -200,12 +200,14 @@ Proof.
 Qed.
 
 Lemma alias_body_step u s u' s' : alias_body u s = Some (u', s') ->
-  exists c, c <> 62 /\ Cons s s' [c] /\ (c <> 10 -> PosR s s' [c]).
+  exists c, c <> 62 /\ Step s s' [c].
 Proof.
   unfold alias_body. intros H. destruct (negb (atEnd s) && negb (is (peek s) 62)) eqn:G; [|discriminate H]. inv H.
   apply andb_true_iff in G. destruct G as [G1 G2]. apply negb_true_iff in G1. apply negb_true_iff in G2.
-  destruct (atEnd_false _ G1) as (c & r & R). unfold peek in G2. rewrite R in G2. cbn in G2. apply N.eqb_neq in G2.
-  exists c. split; auto. split; [eapply adv_Cons; eauto|]. intros. eapply adv_PosR; eauto.
+  destruct (atEnd_false _ G1) as (c & r & R). unfold peek in *. rewrite R in *. cbn [is] in *. apply N.eqb_neq in G2.
+  exists c. split; auto. destruct (c =? 10) eqn:E10.
+  - apply N.eqb_eq in E10. subst c. eapply nl_Step; eauto.
+  - apply N.eqb_neq in E10. eapply adv_Step; eauto.
 Qed.
 
 Lemma Step1_shorter s s' : Step1 s s' -> (length (rest s') < length (rest s))%nat.
@@ -367,39 +369,37 @@ Proof.
 Qed.
 
 Lemma alias_loop_spec F s u u' s' : iter alias_body F u s = Some (u', s') ->
-  exists mid, Cons s s' mid /\ (~ In 10 mid -> PosR s s' mid) /\ ~ In 62 mid /\ (rest s' = [] \/ peek s' = Some 62).
+  exists mid, Step s s' mid /\ ~ In 62 mid /\ (rest s' = [] \/ peek s' = Some 62).
 Proof.
   intros E.
-  apply (iter_ind alias_body (fun _ s _ s' => exists mid, Cons s s' mid /\ (~ In 10 mid -> PosR s s' mid) /\ ~ In 62 mid /\ (rest s' = [] \/ peek s' = Some 62))) in E; auto.
-  - clear. intros u0 s H. exists []. split; [apply Cons_refl|]. split; [intros; apply PosR_refl|]. split; [intros []|].
+  apply (iter_ind alias_body (fun _ s _ s' => exists mid, Step s s' mid /\ ~ In 62 mid /\ (rest s' = [] \/ peek s' = Some 62))) in E; auto.
+  - clear. intros u0 s H. exists []. split; [apply Step_refl|]. split; [intros []|].
     unfold alias_body in H. destruct (atEnd s) eqn:A; [left; apply atEnd_true; auto|]. cbn in H.
     destruct (is (peek s) 62) eqn:I; [|discriminate H]. right. apply is_some; auto.
-  - clear. intros u0 s u1 s1 u2 s' H (mid & C & P & N62 & X).
-    destruct (alias_body_step _ _ _ _ H) as (c & Hc & Cc & Pc). exists ([c] ++ mid).
-    split; [eapply Cons_trans; eauto|]. split; [|split; auto].
-    + intros NI. eapply PosR_trans; [apply Pc|apply P]; intros Hx; apply NI; cbn; auto.
-    + cbn. intros [Hx|Hx]; [congruence|auto].
+  - clear. intros u0 s u1 s1 u2 s' H (mid & St & N62 & X).
+    destruct (alias_body_step _ _ _ _ H) as (c & Hc & Sc). exists ([c] ++ mid).
+    split; [eapply Step_trans; eauto|]. split; auto.
+    cbn. intros [Hx|Hx]; [congruence|auto].
 Qed.
 
 Lemma aliasParameter_spec F s t s' : aliasParameter F s = Some (t, s') ->
-  t = tt_ALIAS_PARAMETER /\ exists mid, Cons s s' mid /\ (~ In 10 mid -> PosR s s' mid) /\
+  t = tt_ALIAS_PARAMETER /\ exists mid, Step s s' mid /\
     ((exists b, mid = b ++ [62] /\ ~ In 62 b) \/ (rest s' = [] /\ ~ In 62 mid)).
 Proof.
   unfold aliasParameter. destruct (iter alias_body F tt s) as [[u s1]|] eqn:E; [|discriminate]. intros H. inv H. split; auto.
-  destruct (alias_loop_spec _ _ _ _ _ E) as (mid & C & P & N62 & X).
+  destruct (alias_loop_spec _ _ _ _ _ E) as (mid & St & N62 & X).
   destruct (atEnd s1) eqn:A.
-  - exists mid. split; auto. split; auto. right. split; auto. apply atEnd_true; auto.
+  - exists mid. split; auto. right. split; auto. apply atEnd_true; auto.
   - destruct X as [X|X]; [unfold atEnd in A; rewrite X in A; discriminate A|].
-    destruct (peek_rest _ _ X) as [r R]. exists (mid ++ [62]). split; [eapply Cons_trans; eauto; eapply adv_Cons; eauto|].
-    split; [|left; eauto]. intros NI. eapply PosR_trans; [apply P|eapply adv_PosR; eauto; lia].
-    intros Hx. apply NI. apply in_or_app. auto.
+    destruct (peek_rest _ _ X) as [r R]. exists (mid ++ [62]). split; [|left; eauto].
+    eapply Step_trans; eauto. eapply adv_Step; eauto. lia.
 Qed.
 
 Lemma aliasParameter_some F s : (length (rest s) < F)%nat -> aliasParameter F s <> None.
 Proof.
   intros H. unfold aliasParameter. destruct (iter alias_body F tt s) as [[u s1]|] eqn:E; [discriminate|].
   exfalso. revert E. apply iter_some; auto. intros a s1 a1 s2 B.
-  destruct (alias_body_step _ _ _ _ B) as (c & _ & C & _). apply Cons_shorter in C. cbn in C. lia.
+  destruct (alias_body_step _ _ _ _ B) as (c & _ & [C _]). apply Cons_shorter in C. cbn in C. lia.
 Qed.
 
 (* ------------------------------------------------------------------------------------------- *)
@@ -498,10 +498,9 @@ Proof.
   exfalso. revert W1. apply while_peek_some; auto. apply isAlphaNumeric_not10.
 Qed.
 
-(* what dispatch consumes and how positions move: exact, except across a line feed inside an alias parameter *)
+(* what dispatch consumes and how positions move *)
 Lemma dispatch_spec m F s0 c s t s2 : dispatch m F s0 c s = Some (t, s2) -> c <> 10 ->
-  exists mid, Cons s s2 mid /\ (PosR s s2 mid \/ (m = Alias /\ t = tt_ALIAS_PARAMETER /\ In 10 mid)) /\
-              (t = tt_EOF -> False).
+  exists mid, Cons s s2 mid /\ PosR s s2 mid /\ (t = tt_EOF -> False).
 Proof.
   unfold dispatch. intros H Hc.
   destruct (isAlpha c).
@@ -509,7 +508,7 @@ Proof.
     intros E. rewrite E in T. symmetry in T. revert T. apply identifierType_not; [cbn; auto|tt_neq]. }
   destruct (isDigit c).
   { destruct (number_spec _ _ _ _ H) as (mid & [C P] & [[T _]|[T _]]); exists mid; split; auto; split; auto; subst t; tt_neq. }
-  destruct (c =? 45); [inv H; exists []; split; [apply Cons_refl|split; [left; apply PosR_refl|tt_neq]]|].
+  destruct (c =? 45); [inv H; exists []; split; [apply Cons_refl|split; [apply PosR_refl|tt_neq]]|].
   destruct (c =? 46).
   { destruct (is (peek s) 46 && is (peekNext s) 46) eqn:G; inv H.
     - apply andb_true_iff in G. destruct G as [G1 G2]. apply is_some in G1. apply is_some in G2.
@@ -519,11 +518,11 @@ Proof.
       exists ([46] ++ [46]). assert (St : Step s (adv (adv s)) ([46] ++ [46])).
       { eapply Step_trans; eapply adv_Step; eauto; lia. }
       destruct St. split; auto. split; auto. tt_neq.
-    - exists []; split; [apply Cons_refl|split; [left; apply PosR_refl|tt_neq]]. }
-  destruct (c =? 44); [inv H; exists []; split; [apply Cons_refl|split; [left; apply PosR_refl|tt_neq]]|].
-  destruct (c =? 58); [inv H; exists []; split; [apply Cons_refl|split; [left; apply PosR_refl|tt_neq]]|].
-  destruct (c =? 40); [inv H; exists []; split; [apply Cons_refl|split; [left; apply PosR_refl|tt_neq]]|].
-  destruct (c =? 41); [inv H; exists []; split; [apply Cons_refl|split; [left; apply PosR_refl|tt_neq]]|].
+    - exists []; split; [apply Cons_refl|split; [apply PosR_refl|tt_neq]]. }
+  destruct (c =? 44); [inv H; exists []; split; [apply Cons_refl|split; [apply PosR_refl|tt_neq]]|].
+  destruct (c =? 58); [inv H; exists []; split; [apply Cons_refl|split; [apply PosR_refl|tt_neq]]|].
+  destruct (c =? 40); [inv H; exists []; split; [apply Cons_refl|split; [apply PosR_refl|tt_neq]]|].
+  destruct (c =? 41); [inv H; exists []; split; [apply Cons_refl|split; [apply PosR_refl|tt_neq]]|].
   destruct (c =? 34).
   { apply quoted_spec in H; try lia. destruct H as (mid & [C P] & [[T _]|[T _]]); exists mid; split; auto; split; auto; subst t; tt_neq. }
   destruct (c =? 39).
@@ -532,9 +531,8 @@ Proof.
   { apply comment_spec in H. destruct H as (T & mid & d & [C P] & _). exists mid; split; auto; split; auto; subst t; tt_neq. }
   destruct ((c =? 60) && match m with Alias => true | Normal => false end) eqn:G.
   { apply andb_true_iff in G. destruct G as [_ G]. destruct m; [discriminate G|].
-    apply aliasParameter_spec in H. destruct H as (T & mid & C & P & _). exists mid. split; auto. split; [|subst t; tt_neq].
-    destruct (in_dec N.eq_dec 10 mid); auto. }
-  inv H. exists []; split; [apply Cons_refl|split; [left; apply PosR_refl|tt_neq]].
+    apply aliasParameter_spec in H. destruct H as (T & mid & [C P] & _). exists mid. split; auto. split; auto. subst t; tt_neq. }
+  inv H. exists []; split; [apply Cons_refl|split; [apply PosR_refl|tt_neq]].
 Qed.
 
 Lemma dispatch_some m F s0 c s : (length (rest s) < F)%nat -> dispatch m F s0 c s <> None.
@@ -556,15 +554,14 @@ Qed.
 (* NextToken *)
 Lemma nextToken_spec m F s t s' : nextToken m F s = Some (t, s') ->
   exists ws mid s0,
-    Step s s0 ws /\ Forall blank ws /\ Cons s0 s' mid /\
-    (PosR s0 s' mid \/ (m = Alias /\ ty t = tt_ALIAS_PARAMETER /\ In 10 mid)) /\
+    Step s s0 ws /\ Forall blank ws /\ Cons s0 s' mid /\ PosR s0 s' mid /\
     t = mkToken (ty t) s0 s' /\
     ((mid = [] /\ rest s' = [] /\ ty t = tt_EOF) \/ (mid <> [] /\ ty t <> tt_EOF)).
 Proof.
   unfold nextToken. destruct (skipWhitespace F s) as [s0|] eqn:W; [|discriminate].
   destruct (skipWhitespace_spec _ _ _ W) as (ws & St & B & NB).
   destruct (atEnd s0) eqn:A.
-  - intros H. inv H. exists ws, [], s'. split; auto. split; auto. split; [apply Cons_refl|]. split; [left; apply PosR_refl|].
+  - intros H. inv H. exists ws, [], s'. split; auto. split; auto. split; [apply Cons_refl|]. split; [apply PosR_refl|].
     split; [reflexivity|]. left. split; auto. split; auto. apply atEnd_true; auto.
   - destruct (atEnd_false _ A) as (c & r & R).
     assert (Ad : advance s0 = (c, adv s0)) by (unfold adv, advance; rewrite R; reflexivity). rewrite Ad.
@@ -574,9 +571,7 @@ Proof.
     exists ws, ([c] ++ mid), s0. split; auto. split; auto.
     split; [eapply Cons_trans; eauto; eapply adv_Cons; eauto|].
     split; [|split; [reflexivity|right; split; [discriminate|cbn; intros E; apply NE; auto]]].
-    destruct P as [P|(P1 & P2 & P3)]; [left|right].
-    + eapply PosR_trans; eauto. eapply adv_PosR; eauto.
-    + cbn. auto.
+    eapply PosR_trans; eauto. eapply adv_PosR; eauto.
 Qed.
 
 Lemma nextToken_some m F s : (length (rest s) < F)%nat -> nextToken m F s <> None.
@@ -683,44 +678,33 @@ Qed.
 (* ScanAll: positions *)
 Lemma scanAll_positions m F l0 c0 src : forall fuel s ts pre, scanAll m F fuel s = Some ts ->
   src = pre ++ rest s -> cur s = len pre -> (line s, col s) = pos_after (l0, c0) pre ->
-  (m = Normal \/ forall t, In t ts -> ty t = tt_ALIAS_PARAMETER -> ~ In 10 (lit t)) ->
   Forall (positioned l0 c0 src) ts.
 Proof.
-  induction fuel as [|f IH]; intros s ts pre H Hsrc Hcur Hpos Hyp; [discriminate H|]. cbn in H.
+  induction fuel as [|f IH]; intros s ts pre H Hsrc Hcur Hpos; [discriminate H|]. cbn in H.
   destruct (nextToken m F s) as [[t s']|] eqn:T; [|discriminate H].
-  destruct (nextToken_spec _ _ _ _ _ T) as (ws & mid & s0 & [[R0 C0] P0] & B & [R1 C1] & P1 & Tk & X).
+  destruct (nextToken_spec _ _ _ _ _ T) as (ws & mid & s0 & [[R0 C0] P0] & B & [R1 C1] & P & Tk & X).
   assert (Hs : src = pre ++ ws ++ mid ++ rest s') by (rewrite Hsrc, R0, R1; reflexivity).
-  assert (In1 : forall r, ts = t :: r -> PosR s0 s' mid).
-  { intros r ->. destruct P1 as [P1|(M & Ty & I)]; auto. exfalso.
-    destruct Hyp as [Hyp|Hyp]; [congruence|]. apply (Hyp t); cbn; auto.
-    rewrite Tk. cbn [lit mkToken]. rewrite Ty.
-    replace (tt_ALIAS_PARAMETER =? tt_ILLEGAL) with false by (vm_compute; reflexivity).
-    rewrite (literal_mid s0 s' mid) by (split; auto). auto. }
   assert (Q0 : (line s0, col s0) = pos_after (l0, c0) (pre ++ ws)).
   { unfold PosR in P0. rewrite P0, Hpos. unfold pos_after. rewrite fold_left_app. reflexivity. }
-  assert (Head : PosR s0 s' mid -> positioned l0 c0 src t /\ (line s', col s') = pos_after (l0, c0) (pre ++ ws ++ mid)).
-  { intros P. assert (Q1 : (line s', col s') = pos_after (l0, c0) (pre ++ ws ++ mid)).
-    { unfold PosR in P. rewrite P, Q0. unfold pos_after. rewrite app_assoc, (fold_left_app _ (pre ++ ws)). reflexivity. }
-    split; auto. unfold positioned. rewrite Tk. cbn [sl sc el ec tstart tend mkToken]. split.
+  assert (Q1 : (line s', col s') = pos_after (l0, c0) (pre ++ ws ++ mid)).
+  { unfold PosR in P. rewrite P, Q0. unfold pos_after. rewrite app_assoc, (fold_left_app _ (pre ++ ws)). reflexivity. }
+  assert (Ht : positioned l0 c0 src t).
+  { unfold positioned. rewrite Tk. cbn [sl sc el ec tstart tend mkToken]. split.
     - rewrite Q0. replace src with ((pre ++ ws) ++ mid ++ rest s') by (rewrite Hs, <- !app_assoc; reflexivity).
       symmetry. apply pos_of_app. rewrite C0, Hcur, len_app. reflexivity.
     - rewrite Q1. replace src with ((pre ++ ws ++ mid) ++ rest s') by (rewrite Hs, <- !app_assoc; reflexivity).
       symmetry. apply pos_of_app. rewrite C1, C0, Hcur, !len_app. lia. }
   destruct (ty t =? tt_EOF) eqn:E.
-  - inv H. constructor; [|constructor]. apply Head. eapply In1; eauto.
-  - destruct (scanAll m F f s') as [ts'|] eqn:R; [|discriminate H]. inv H.
-    destruct (Head (In1 _ eq_refl)) as [Ht Q1]. constructor; auto.
+  - injection H as <-. constructor; [auto|constructor].
+  - destruct (scanAll m F f s') as [ts'|] eqn:R; [|discriminate H]. injection H as <-. constructor; auto.
     apply (IH s' ts' (pre ++ ws ++ mid)); auto.
     + rewrite Hs, <- !app_assoc. reflexivity.
     + rewrite C1, C0, Hcur, !len_app. lia.
-    + destruct Hyp as [Hyp|Hyp]; auto. right. intros t' I. apply Hyp. cbn. auto.
 Qed.
 
-Theorem scan_positions m l0 c0 i0 src ts : scan_from m l0 c0 i0 src = Some ts ->
-  (m = Normal \/ forall t, In t ts -> ty t = tt_ALIAS_PARAMETER -> ~ In 10 (lit t)) ->
-  Forall (positioned l0 c0 src) ts.
+Theorem scan_positions m l0 c0 i0 src ts : scan_from m l0 c0 i0 src = Some ts -> Forall (positioned l0 c0 src) ts.
 Proof.
-  unfold scan_from. intros H Hyp. apply (scanAll_positions _ _ l0 c0 src _ _ _ []) in H; auto.
+  unfold scan_from. intros H. apply (scanAll_positions _ _ l0 c0 src _ _ _ []) in H; auto.
 Qed.
 
 Theorem scan_one_eof m l0 c0 i0 src ts : scan_from m l0 c0 i0 src = Some ts ->
